@@ -344,6 +344,122 @@ impl<'a> Exec<'a> {
                 let k = self.keys.sym.get(a(1).as_str().unwrap()).ok_or("key")?;
                 res(reg(regs, a(0))?.decrypt(k))
             }
+            "forge_encrypted" => {
+                // a key holder encrypts content P but declares the digest of another envelope
+                let p = reg(regs, a(0))?;
+                let d = reg(regs, a(1))?;
+                let k = self.keys.sym.get(a(2).as_str().unwrap()).ok_or("key")?;
+                let msg = k.encrypt_with_digest(p.tagged_cbor().to_cbor_data(), d.digest().into_owned(), None::<bc_components::Nonce>);
+                res(Envelope::try_from(msg))
+            }
+            "forge_compressed" => {
+                let p = reg(regs, a(0))?;
+                let d = reg(regs, a(1))?;
+                let c = bc_components::Compressed::from_uncompressed_data(p.tagged_cbor().to_cbor_data(), Some(d.digest().into_owned()));
+                res(Envelope::try_from(c))
+            }
+            "tamper" => {
+                use bc_components::{AuthenticationTag, EncryptedMessage, Nonce};
+                let e = reg(regs, a(0))?;
+                let field = a(1).as_str().ok_or("field")?;
+                let subj = e.subject();
+                let msg = match subj.case() {
+                    bc_envelope::base::envelope::EnvelopeCase::Encrypted(m) => m.clone(),
+                    _ => return Err("tamper: subject not encrypted".into()),
+                };
+                let bit = (var % 8) as u8;
+                let mut ct = msg.ciphertext().clone();
+                let mut nonce = msg.nonce().data().to_vec();
+                let mut tag = msg.authentication_tag().data().to_vec();
+                let mut aad = msg.aad().clone();
+                match field {
+                    "ciphertext" => {
+                        let i = (var as usize / 8) % ct.len().max(1);
+                        if ct.is_empty() { ct.push(1) } else { ct[i] ^= 1 << bit }
+                    }
+                    "nonce" => {
+                        let i = (var as usize / 8) % nonce.len();
+                        nonce[i] ^= 1 << bit
+                    }
+                    "tag" => {
+                        let i = (var as usize / 8) % tag.len();
+                        tag[i] ^= 1 << bit
+                    }
+                    "aad" => {
+                        // declare another digest (the specification's Absent digest)
+                        let d = self.ctx.digest(&serde_json::json!(["X", 0])).map_err(|e| e.0)?;
+                        let c: dcbor::CBOR = Digest::from_data(d).into();
+                        aad = c.to_cbor_data();
+                    }
+                    _ => return Err("tamper field".into()),
+                }
+                let m2 = EncryptedMessage::new(ct, aad, Nonce::from_data_ref(&nonce).map_err(|e| e.to_string())?,
+                    AuthenticationTag::from_data_ref(&tag).map_err(|e| e.to_string())?);
+                let t = Envelope::try_from(m2).map_err(|e| e.to_string())?;
+                Outcome::Env(if e.is_node() { e.replace_subject(t) } else { t })
+            }
+            "corrupt" => {
+                let e = reg(regs, a(0))?;
+                let how = a(1).as_str().ok_or("how")?;
+                let c = match e.case() {
+                    bc_envelope::base::envelope::EnvelopeCase::Compressed(c) => c.clone(),
+                    _ => return Err("corrupt: not compressed".into()),
+                };
+                // take the container apart through its CBOR form
+                let arr = c.untagged_cbor().try_into_array().map_err(|e| e.to_string())?;
+                let mut checksum: u32 = arr[0].clone().try_into().map_err(|e: anyhow::Error| e.to_string())?;
+                let size: usize = arr[1].clone().try_into().map_err(|e: anyhow::Error| e.to_string())?;
+                let mut data: Vec<u8> = arr[2].clone().try_into_byte_string().map_err(|e| e.to_string())?;
+                let digest = c.digest_ref_opt().cloned();
+                let original = c.uncompress().map_err(|e| e.to_string())?;
+                // an *effective* corruption: the container must no longer inflate to the original
+                // content (a flipped padding bit of a DEFLATE stream, for instance, changes nothing)
+                let effective = |d: &Vec<u8>, ck: u32| -> bool {
+                    match bc_components::Compressed::new(ck, size, d.clone(), digest.clone()) {
+                        Ok(c2) => c2.uncompress().map(|u| u != original).unwrap_or(true),
+                        Err(_) => false,
+                    }
+                };
+                match how {
+                    "data" => {
+                        if data.is_empty() { return Err("corrupt: empty".into()) }
+                        let n = data.len();
+                        let start = (var as usize) % n;
+                        let mut done = false;
+                        for off in 0..n {
+                            let i = (start + off) % n;
+                            for bit in [0x20u8, 0x01, 0x80, 0x08] {
+                                let mut d2 = data.clone();
+                                d2[i] ^= bit;
+                                if effective(&d2, checksum) {
+                                    data = d2;
+                                    done = true;
+                                    break;
+                                }
+                            }
+                            if done { break }
+                        }
+                        if !done { return Err("corrupt: no effective corruption found".into()) }
+                    }
+                    "checksum" => {
+                        checksum ^= 0x5a5a;
+                        if !effective(&data, checksum) {
+                            // stored raw: the checksum is not consulted; corrupt the data instead
+                            let i = (var as usize) % data.len().max(1);
+                            data[i] ^= 0x01;
+                        }
+                    }
+                    "truncate" => {
+                        if data.len() < 2 { return Err("corrupt: too short".into()) }
+                        data.truncate(data.len() - 1);
+                    }
+                    _ => return Err("corrupt how".into()),
+                }
+                match bc_components::Compressed::new(checksum, size, data, digest) {
+                    Ok(c2) => res(Envelope::try_from(c2)),
+                    Err(e) => return Err(format!("corrupt: container refuses: {}", e)),
+                }
+            }
             "encode_decode" => {
                 let e = reg(regs, a(0))?;
                 match var % 3 {
